@@ -596,7 +596,7 @@ func canonAccessPath(p *Prog, typ *types.Named, path string) string {
 	if typ.Obj().Pkg() == nil || typ.Obj().Pkg().Name() != "cbreaker" || typ.Obj().Name() != "CircuitBreaker" {
 		return path
 	}
-	st := p.Named("cbreaker", "cbState")
+	st := namedRole(p, "cbreaker", "cbState")
 	stateF := ""
 	if st != nil {
 		if fs := fieldsOfType(typ, func(t types.Type) bool { n, ok := t.(*types.Named); return ok && n.Obj() == st.Obj() }); len(fs) == 1 {
